@@ -463,6 +463,10 @@ class Executor:
                     self.at_raise(s, val)
                 else:
                     raise Unsupported("continue/break escaped the function")
+            if getattr(self, "_return_probes", 0):
+                live = getattr(self, "_live_return", False)
+                self.obligations.append(Obligation(name=f"{self.contract.prefix}.canary.return", function=self.contract.qualname, status=DISCHARGED if live else VIOLATED, backend="z3", kind="canary",
+                                                   formula="a false goal must not be provable at every return probed", detail="" if live else "the assumptions collected along every probed returning path are contradictory"))
         except (Unsupported, ContractError) as e:
             if os.environ.get("VERIF_DEBUG"):
                 import traceback
@@ -517,11 +521,14 @@ class Executor:
 
     def at_return(self, state, val, fn):
         self.path_count += 1
-        if self.path_count == 1:
-            # vacuity guard at the first return: the facts assumed on the way (callee contracts, models) must not be contradictory
+        if not getattr(self, "_live_return", False) and getattr(self, "_return_probes", 0) < 8:
+            # vacuity guard: at least one return must be reachable with non-contradictory assumptions (callee contracts,
+            # models); paths whose condition is infeasible are legitimate (pruning is best effort), so the canary is
+            # emitted once, after all paths, from what the first probes found
+            self._return_probes = getattr(self, "_return_probes", 0) + 1
             status, *_ = self.solver.check(self.axioms + state.pc, z3.BoolVal(False), timeout_ms=1500, fallback=False)
-            self.obligations.append(Obligation(name=f"{self.contract.prefix}.canary.return", function=self.contract.qualname, status=DISCHARGED if status != "unsat" else VIOLATED, backend="z3", kind="canary",
-                                               formula="a false goal must not be provable at the first return", detail="" if status != "unsat" else "the assumptions collected along the path are contradictory"))
+            if status != "unsat":
+                self._live_return = True
         for name, goal in self.contract.ensures(self, {**state.vars, "__entry__": self.entry, "__state__": state}, val):
             if name.startswith("canary:"):
                 # the clause must NOT be provable (it states that the definitions used by the specification are contradictory)
@@ -710,6 +717,9 @@ class Executor:
                 newv = self.prims.setitem(self, st, base, idx, value, target)
             if isinstance(target.value, ast.Name):
                 st.vars[target.value.id] = newv
+            elif isinstance(target.value, ast.Subscript):
+                # nested store  a[k][j] = v  ==  a[k] = (a[k] with [j] = v)   (functional update, outer container rebound)
+                self.assign(target.value, newv, st)
             else:
                 raise Unsupported("subscript store into a non-name")
         elif isinstance(target, ast.Attribute):
